@@ -250,6 +250,15 @@ def propagate_in(f: Func, summ: dict[str, set[str]], res: Any) -> int:
                 ok_all = False
         if not repl:
             continue
+        if impure:
+            # a call result may only be folded into the statement that directly follows its binding in the same
+            # block (never across a try / loop / branch boundary: the exception context would change)
+            nxt = _next_stmt(f.node, st)
+            if nxt is None or len(uses_direct) != 1:
+                continue
+            hdr = [nxt] if not isinstance(nxt, (ast.If, ast.While, ast.For, ast.AsyncFor, ast.With, ast.AsyncWith, ast.Try)) else ([nxt.test] if isinstance(nxt, (ast.If,)) else [])
+            if not any(x is uses_direct[0][1] for h in hdr for x in ast.walk(h)):
+                continue
         creates_object = impure or any(isinstance(x, (ast.Call, ast.Tuple)) for x in ast.walk(val))
         if creates_object and (len(uses_direct) + len(nested_uses) != 1 or nested_uses or not ok_all):
             continue  # partial(...) / tuples are new objects at every evaluation: only a single use may be replaced
@@ -269,6 +278,16 @@ def propagate_in(f: Func, summ: dict[str, set[str]], res: Any) -> int:
         ast.fix_missing_locations(f.node)
         return done
     return done
+
+
+def _next_stmt(root: ast.AST, st: ast.stmt) -> ast.stmt | None:
+    for n in ast.walk(root):
+        for fld in ("body", "orelse", "finalbody"):
+            b = getattr(n, fld, None)
+            if isinstance(b, list) and st in b:
+                i = b.index(st)
+                return b[i + 1] if i + 1 < len(b) else None
+    return None
 
 
 def _remove_stmt(root: ast.AST, st: ast.stmt) -> None:
@@ -311,6 +330,35 @@ def loops_to_comprehensions(repo: Repo) -> int:
                     st.value = comp
                     del body[i + 1]
                     count += 1
+            # dict building:  d = {} ; for v in it: [if C: continue] ; d[k] = e   ->   d = {k: e for v in it [if not C]}
+            if i + 1 < len(body) and isinstance(st, (ast.Assign, ast.AnnAssign)) and isinstance(getattr(st, "value", None), ast.Dict) and not st.value.keys:
+                tgt = st.targets[0] if isinstance(st, ast.Assign) and len(st.targets) == 1 else getattr(st, "target", None)
+                lp = body[i + 1]
+                if isinstance(tgt, ast.Name) and isinstance(lp, ast.For) and not lp.orelse and isinstance(lp.target, ast.Name):
+                    ifs: list[ast.expr] = []
+                    rest = list(lp.body)
+                    ok = True
+                    while rest and isinstance(rest[0], ast.If) and len(rest) > 1:
+                        g0 = rest[0]
+                        if len(g0.body) == 1 and isinstance(g0.body[0], ast.Continue) and not g0.orelse:
+                            ifs.append(ast.UnaryOp(op=ast.Not(), operand=g0.test))
+                            rest = rest[1:]
+                        else:
+                            ok = False
+                            break
+                    if ok and len(rest) == 1 and isinstance(rest[0], ast.If) and not rest[0].orelse and len(rest[0].body) == 1:
+                        ifs.append(rest[0].test)
+                        rest = rest[0].body
+                    if (
+                        ok and len(rest) == 1 and isinstance(rest[0], ast.Assign) and len(rest[0].targets) == 1 and isinstance(rest[0].targets[0], ast.Subscript)
+                        and isinstance(rest[0].targets[0].value, ast.Name) and rest[0].targets[0].value.id == tgt.id
+                        and not any(isinstance(x, ast.Name) and x.id == tgt.id for x in ast.walk(rest[0].value))
+                        and not any(isinstance(x, (ast.Await, ast.Yield, ast.YieldFrom)) for x in ast.walk(lp))
+                    ):
+                        comp = ast.DictComp(key=rest[0].targets[0].slice, value=rest[0].value, generators=[ast.comprehension(target=lp.target, iter=lp.iter, ifs=ifs, is_async=0)])
+                        st.value = comp
+                        del body[i + 1]
+                        count += 1
             i += 1
 
     for f in repo.funcs.values():
